@@ -80,14 +80,14 @@ func PrepareC10(ctx *Ctx) (*Prepared, error) {
 		p.Jobs = append(p.Jobs, j)
 		p.ExpectReach[j.Name] = []string{reach}
 	}
-	for s := 0; s < 16; s++ {
+	for s := 0; s < 48; s++ {
 		add(fmt.Sprintf("VH_C10A_%02d", s), "c10a")
 	}
 	for s := 0; s < 4; s++ {
 		add(fmt.Sprintf("VH_C10B_%02d", s), "c10b")
 	}
 	if ctx.Tier == "thorough" {
-		for s := 0; s < 16; s++ {
+		for s := 0; s < 48; s++ {
 			add(fmt.Sprintf("VH_C10A2_%02d", s), "c10a")
 		}
 	}
